@@ -274,6 +274,9 @@ def main(run):
                        "reproduce": "bin/check C16"}, True)
     for z in zs:
         for pr in getattr(z, "problems", []):
+            if len(run.violations) >= 4:
+                run.extra["violations_not_written"] = run.extra.get("violations_not_written", 0) + 1
+                continue
             run.violation(dict(pr, zoo_form=z.name, reproduce="bin/check C16"), True)
     failing = coqgen.emit_and_check(run, "C16", cases, extra_header=L.EXTRA_HEADER, timeout=600)
     hand = vlib.coqc("Props/C16_algebra.v")
